@@ -28,12 +28,9 @@
      for TreeSet.  [C08_tree_seq]: its length is Size(), its first components are Keys(), its second
      components are Values() (except TreeBidiMap, whose Values() are listed in value order).
    - Hypotheses: on the configuration only, [is_tree_iter_kind (ckind c) = true] and
-     [btree_ok c = true] (a BTree is built with order >= 3; smaller orders panic in the constructor),
-     plus, for BTree states only, [iter_fuel_ok s]: the tree's height is at most 65.  This last one is
-     an artefact of the MODEL, not of the Go code: Model/BTreeIter.v descends with a constant fuel
-     F = 64 where Go loops until it reaches a leaf.  A B-tree of height h holds at least 2^h - 1
-     entries, so it holds whenever Size() < 2^65 ([C08_tree_cursor_size], [C08_tree_fuel_of_size]),
-     and it is [True] for the five other kinds ([C08_tree_cursor_binary] has no side condition). *)
+     [btree_ok c = true] (a BTree is built with order >= 3; smaller orders panic in the constructor).
+     (The model's B-tree iterator descends and climbs with the fuel S (maxheight root), which always
+     suffices: Model/BTreeIter.v, [fuel_of].) *)
 From Coq Require Import ZArith List Bool Lia.
 From Gods Require Import Common.Cmp Spec.SeqSpec Model.Ops Model.Iter Model.Machine.
 From Gods Require Proofs.BTreeInv Proofs.IterTreeBT.
@@ -45,23 +42,16 @@ Local Open Scope Z_scope.
 
 (* after every history of operations, every script, all six kinds *)
 Theorem C08_tree_cursor : forall c ops cs, is_tree_iter_kind (ckind c) = true -> btree_ok c = true ->
-  iter_fuel_ok (run c ops) ->
   run_iter c (run c ops) cs = cursor_script (tree_iter_seq c (run c ops)) true cs.
 Proof. exact tree_iter_reachable. Qed.
 Print Assumptions C08_tree_cursor.
 
-(* RedBlackTree, TreeMap, TreeSet, TreeBidiMap, AVLTree: no side condition *)
-Theorem C08_tree_cursor_binary : forall c ops cs, is_tree_iter_kind (ckind c) = true -> ckind c <> BTree ->
-  run_iter c (run c ops) cs = cursor_script (tree_iter_seq c (run c ops)) true cs.
-Proof. exact tree_iter_reachable_binary. Qed.
-Print Assumptions C08_tree_cursor_binary.
-
-(* the side condition stated with Size() *)
-Theorem C08_tree_cursor_size : forall c ops cs, is_tree_iter_kind (ckind c) = true -> btree_ok c = true ->
-  size_of c (run c ops) < 2 ^ 65 ->
-  run_iter c (run c ops) cs = cursor_script (tree_iter_seq c (run c ops)) true cs.
-Proof. exact tree_iter_reachable_size. Qed.
-Print Assumptions C08_tree_cursor_size.
+(* hence the answers of a script depend on the enumerated sequence only, not on the shape of the tree *)
+Theorem C08_tree_seq_only : forall c ops1 ops2 cs, is_tree_iter_kind (ckind c) = true -> btree_ok c = true ->
+  tree_iter_seq c (run c ops1) = tree_iter_seq c (run c ops2) ->
+  run_iter c (run c ops1) cs = run_iter c (run c ops2) cs.
+Proof. exact tree_iter_seq_only. Qed.
+Print Assumptions C08_tree_seq_only.
 
 (* the reachable states never crash and keep the invariant the iterators rely on: cached size =
    number of nodes; for the B-tree the shape invariant and strictly ascending entries *)
@@ -71,25 +61,19 @@ Proof. exact (fun c ops Hk Hb => conj (run_tree_state c ops Hk Hb) (run_tree_not
 Print Assumptions C08_tree_reachable.
 
 (* every state satisfying that invariant, every script *)
-Theorem C08_tree : forall c s cs, tree_state c s -> iter_fuel_ok s ->
+Theorem C08_tree : forall c s cs, tree_state c s ->
   run_iter c s cs = cursor_script (tree_iter_seq c s) true cs.
 Proof. exact tree_iter_is_cursor. Qed.
 Print Assumptions C08_tree.
 
-Theorem C08_tree_fuel_of_size : forall c s, tree_state c s -> size_of c s < 2 ^ 65 -> iter_fuel_ok s.
-Proof. exact iter_fuel_ok_of_size. Qed.
-Print Assumptions C08_tree_fuel_of_size.
-
 (* the full forward and backward walks of a fresh iterator (what Each / Keys / Values / String and
    the enumerable functions range over) visit exactly that sequence, and its reverse *)
 Theorem C08_tree_forward : forall c ops, is_tree_iter_kind (ckind c) = true -> btree_ok c = true ->
-  iter_fuel_ok (run c ops) ->
   each_of c (run c ops) = Some (tree_iter_seq c (run c ops)).
 Proof. exact each_of_tree_machine. Qed.
 Print Assumptions C08_tree_forward.
 
 Theorem C08_tree_backward : forall c ops, is_tree_iter_kind (ckind c) = true -> btree_ok c = true ->
-  iter_fuel_ok (run c ops) ->
   each_back c (run c ops) = Some (rev (entries_of c (run c ops))).
 Proof. exact each_back_tree_machine. Qed.
 Print Assumptions C08_tree_backward.
@@ -225,9 +209,9 @@ Print Assumptions C08_avl_path_iterator.
 
 (* (d) B-tree path iterator: it searches its key again in the node and in every ancestor, so it needs
    the shape invariant and strictly ascending entries under a strict weak order (both hold for every
-   reachable state), and a height within the model's descent fuel *)
+   reachable state) *)
 Theorem C08_bt_path_iterator : forall cmp, SWO cmp -> forall m (r : option BT.node) fuel cs, (3 <= m)%nat ->
-  BTreeInv.btree_inv m r -> BTreeInv.sorted_root cmp r -> IterTreeBT.bt_depth_ok r ->
+  BTreeInv.btree_inv m r -> BTreeInv.sorted_root cmp r ->
   (length (bt_inorder r) + 2 <= fuel)%nat ->
   run_script BTI.ipos (bt_next cmp r) (bt_prev cmp r) (fun _ => BTI.IBegin) (fun _ => BTI.IEnd) (BTI.ientry r) true fuel BTI.IBegin cs
   = cursor_script (bt_inorder r) true cs.
@@ -257,7 +241,7 @@ Proof. exact iter_AVLTree. Qed.
 Print Assumptions C08_AVLTree.
 
 Theorem C08_BTree : forall c r n cs, (3 <= bt_m c)%nat ->
-  BTreeInv.btree_inv (bt_m c) r -> BTreeInv.sorted_root (kc c) r -> IterTreeBT.bt_depth_ok r ->
+  BTreeInv.btree_inv (bt_m c) r -> BTreeInv.sorted_root (kc c) r ->
   n = Z.of_nat (length (bt_inorder r)) ->
   run_iter c (StBT r n) cs = cursor_script (entries_of c (StBT r n)) true cs.
 Proof. exact iter_BTree. Qed.
@@ -288,9 +272,8 @@ Proof. vm_compute; reflexivity. Qed.
 
 (* the hypotheses of C08_tree_cursor hold for it *)
 Example ex_btree_hyps :
-  is_tree_iter_kind (ckind (cfg BTree)) = true /\ btree_ok (cfg BTree) = true /\
-  iter_fuel_ok (run (cfg BTree) bt_ops).
-Proof. split; [reflexivity|]. split; [reflexivity|]. vm_compute. lia. Qed.
+  is_tree_iter_kind (ckind (cfg BTree)) = true /\ btree_ok (cfg BTree) = true.
+Proof. split; reflexivity. Qed.
 
 (* reversing direction at both sentinels: Prev twice below the first element stays at -1 and the next
    Next is the first element again; End then Next stays at n and the next Prev is the last element;
@@ -335,7 +318,7 @@ Proof. vm_compute; split; reflexivity. Qed.
 Example ex_btree_by_theorem : forall cs,
   it BTree bt_ops cs = cursor_script (tree_iter_seq (cfg BTree) (run (cfg BTree) bt_ops)) true cs.
 Proof.
-  intros cs. apply C08_tree_cursor; [reflexivity|reflexivity|]. vm_compute. lia.
+  intros cs. apply C08_tree_cursor; reflexivity.
 Qed.
 
 (* red-black tree: 9 removed, the value of 3 overwritten in place; both sentinels *)
